@@ -5,6 +5,7 @@ CONSTANTS
   Urgent = TRUE
   Guard = TRUE
   SS = TRUE
+  Exp = {}
   Pushes = TRUE
 INVARIANTS WitPushSend
 CHECK_DEADLOCK FALSE
